@@ -214,13 +214,14 @@ def _roundtrip_once(dec, ni, nj, name_i, vel, declare, box_i, recs_n=3):
             f = GroFile(p, 'w')
             if declare:
                 f.natoms = len(recs)
-            f.comment = 'Title with spaces, t= 1.0'
+            title = 'Title with spaces, t= 1.0' if (ni + nj) % 2 == 0 else 'L\u00edquido i\u00f3nico 25 \u00b0C'      # a non-ASCII title every other file
+            f.comment = title
             f.box_matrix = np.array(BOXES[box_i][1], dtype=float)
             f.position_format = (W, dec)
             for rec in recs:
                 f.writeline(list(rec))
             f.close()
-        lines = open(p).read().split('\n')
+        lines = open(p, encoding='utf-8').read().split('\n')
         atom_lines = lines[2:2 + len(recs)]
         if len({len(l) for l in atom_lines}) != 1:
             problems.append('atom lines of different lengths %s' % [len(l) for l in atom_lines])
@@ -230,7 +231,7 @@ def _roundtrip_once(dec, ni, nj, name_i, vel, declare, box_i, recs_n=3):
         back = g.readlines()
         if g.natoms != len(recs) or len(back) != len(recs):
             problems.append('%d records written, natoms=%r, %d read' % (len(recs), g.natoms, len(back)))
-        if g.comment.rstrip('\n') != 'Title with spaces, t= 1.0':
+        if g.comment.rstrip('\n') != title:
             problems.append('title read back as %r' % g.comment)
         B = np.array(BOXES[box_i][1], dtype=float)
         B = np.diag(B) if B.shape == (3,) else B
